@@ -144,7 +144,8 @@ fn run_scenario(args: &HashMap<String, String>) -> Result<(), String> {
             "range" => { let s = num("s", 0); let e = num("e", 3); let len = e.saturating_sub(s); let it = (s..e).con_iter(); it.counter().store(c);
                          let mut m = Model { cur: c as u128, len, delivered: vec![false; MAXLEN], owned_from: 0, skipped_at: None };
                          run_range(it, &mut m, &ops, s); }
-            "vec" => { let len = num("len", 3).min(MAXLEN); let v: Vec<D> = (0..len).map(D).collect(); let it = v.into_con_iter(); it.counter().store(c);
+            // (the vector is grown by pushing, as in the Kani harnesses: its capacity may exceed its length)
+            "vec" => { let len = num("len", 3).min(MAXLEN); let mut v: Vec<D> = Vec::new(); for i in 0..len { v.push(D(i)); } let it = v.into_con_iter(); it.counter().store(c);
                        let mut m = Model { cur: c as u128, len, delivered: vec![false; MAXLEN], owned_from: c.min(len), skipped_at: None }; run(it, &mut m, &ops, |v: &D| v.0, true); ledger(&m); }
             "array" => { let it = [D(0), D(1), D(2)].into_con_iter(); it.counter().store(c);
                          let mut m = Model { cur: c as u128, len: 3, delivered: vec![false; MAXLEN], owned_from: c.min(3), skipped_at: None }; run(it, &mut m, &ops, |v: &D| v.0, true); ledger(&m); }
